@@ -293,6 +293,10 @@ func (c *Client) BlockchainInfo(ctx context.Context, minHeight, maxHeight int64)
 			return nil, fmt.Errorf("block meta header %X does not match with trusted header %X",
 				bmH, tH)
 		}
+		if !meta.BlockID.Equals(h.Commit.BlockID) {
+			return nil, fmt.Errorf("block meta id %v does not match with trusted block id %v",
+				meta.BlockID, h.Commit.BlockID)
+		}
 	}
 
 	return res, nil
@@ -336,6 +340,11 @@ func (c *Client) Block(ctx context.Context, height *int64) (*ctypes.ResultBlock,
 		return nil, fmt.Errorf("block header %X does not match with trusted header %X",
 			bH, tH)
 	}
+	// The block id (hash and part-set header) must be the one the verified commit is for.
+	if !res.BlockID.Equals(l.Commit.BlockID) {
+		return nil, fmt.Errorf("block id %v does not match with trusted block id %v",
+			res.BlockID, l.Commit.BlockID)
+	}
 
 	return res, nil
 }
@@ -369,6 +378,11 @@ func (c *Client) BlockByHash(ctx context.Context, hash []byte) (*ctypes.ResultBl
 	if bH, tH := res.Block.Hash(), l.Hash(); !bytes.Equal(bH, tH) {
 		return nil, fmt.Errorf("block header %X does not match with trusted header %X",
 			bH, tH)
+	}
+	// The block id (hash and part-set header) must be the one the verified commit is for.
+	if !res.BlockID.Equals(l.Commit.BlockID) {
+		return nil, fmt.Errorf("block id %v does not match with trusted block id %v",
+			res.BlockID, l.Commit.BlockID)
 	}
 
 	return res, nil
